@@ -1,579 +1,715 @@
 """C40 - backup, revert and copy behave exactly.
 
-Decided (flow.py::Flow, coretypes/serializable.py::Serializable):
-  R40.1 ``Flow.backup`` stores ``self.get_state()`` exactly when no backup exists (an existing backup is never
-        overwritten); ``Flow.revert`` calls ``self.set_state(self._backup)`` - with the backup still in place - exactly
-        when a backup exists, and the backup is cleared afterwards (explicitly, or by ``Flow.set_state`` taking
-        ``_backup`` from the state's own "backup" entry); ``Flow.modified`` returns False without a backup and the
-        inequality of ``self._backup`` and ``self.get_state()`` otherwise.
-  R40.2 ``Serializable.copy`` replaces ``state["id"]`` by a fresh ``uuid4`` BEFORE ``from_state``; ``Flow.copy`` returns
-        that copy with ``live = False``; ``Flow.get_state`` deep-copies its mutable members (``metadata`` and the backup)
-        so that neither a copy nor a backup aliases the live flow.
-  R40.3 (added) ``modified()`` is False for an unedited flow, for every concrete flow class: abstract two-run evaluation
-        of ``Flow.get_state`` (+ the literal keys the subclass adds) - run 1 with ``_backup = None`` yields the snapshot B
-        that ``backup()`` stores, run 2 with ``_backup = B`` and all other components equal yields the state
-        ``modified()`` compares with B - must give equal key sets and equal "backup"
-        entries, after applying what ``modified()`` itself does to that entry (``state["backup"] = None`` / pop) before it
-        compares.  (Defect F-C40 on the pinned tree: the entry is None in B but a copy of B in run 2, so a flow was
-        "modified" as soon as it was backed up; repaired in /repo by ec24fccfb, which resets the entry in ``modified()``.
-        A repair inside ``get_state`` cannot work because the partial state there lacks the subclass keys.)
-  R40.4 (added; "reverting restores exactly the backed-up state") ``set_state`` is a TOTAL overwrite for every flow class
-        (Flow, HTTPFlow, TCPFlow, UDPFlow, DNSFlow): every attribute ``self.A`` that the class's ``get_state`` reads into the
-        state is definitely written on EVERY path of the class's ``set_state`` (must-definition analysis over if / conditional
-        expression / walrus / match, ``super().set_state`` and ``self.<helper>()`` followed along the MRO) - by an assignment
-        whose value does not read ``self.A`` back, or by ``self.A.set_state(...)`` - or is compared with the state by an
-        ``assert`` (class constants such as ``type``).  An attribute written only when the state carries a value (``if r :=
-        state.pop("response"): self.response = ...``) keeps what was attached after the backup: revert() then returns a
-        flow that differs from the backed-up state while the backup is already gone.
-NOT decided: that set_state assigns each attribute from ITS OWN key (R36.1 key agreement), edit-history equivalence.
-Dropped from DESIGN R40.2: "HTTPFlow.copy copies request and response" - from_state already builds fresh message objects
-from the copied state, so the explicit copies are not a necessary condition of independence.
+All four rules are decided by INTERPRETING the methods of every flow class (Flow, HTTPFlow, TCPFlow, UDPFlow, DNSFlow) from
+their AST with ``mitmlint/pyint.py`` on abstract flows (nothing is imported or run): ``get_state`` / ``set_state`` /
+``backup`` / ``revert`` / ``modified`` / ``copy`` (and ``Serializable.copy``, whatever helpers they call, ``super()`` chains,
+``__init__``) are followed by the interpreter, so renamed locals, early returns, inverted branches, extracted helpers,
+``dict.update`` instead of ``{**super().get_state(), ...}``, added logging / assertions / annotations do not matter.
+
+The abstract flow: a record bound to the flow class, created by interpreting the class's ``__init__``; its data attributes are
+discovered from the class bodies' annotations and ``__init__`` (kind by annotation: scalar / optional scalar / dict / list of
+sub-objects / (optional) sub-object).  Sub-objects (connections, messages, errors, websocket data) are opaque serialisable
+values of the rule (``get_state`` returns a fresh deep copy of the content, ``set_state`` / ``<Class>.from_state`` consume
+the given state, equality by content).  Every attribute ranges over a small value set that contains None / falsy / two
+different truthy values (and an in-place mutation for containers).
+
+  R40.1 ``backup()`` stores exactly ``get_state()`` when there is no backup and never overwrites an existing one;
+        ``revert()`` restores what ``set_state(<the backup>)`` restores - exactly when a backup exists -, leaves no backup
+        behind and does nothing without one; ``modified()`` is False without a backup, True after every edit that changes
+        the state, False again when the edit is undone and after ``revert()``; a second backup / edit / revert cycle works.
+  R40.2 a copy has a fresh id (taken from a ``uuid`` generator, present BEFORE ``from_state`` consumed the state), equal
+        content, ``live == False``, and shares no mutable object with the original; ``get_state()`` shares no mutable object
+        with the flow (``metadata`` and the stored backup are deep copies) - otherwise an in-place edit of the flow changes its
+        backup / its copy.
+  R40.3 ``modified()`` is False for an unedited flow with a backup, for every flow class (defect F-C40 on the pinned tree,
+        repaired by ec24fccfb).
+  R40.4 ``set_state`` is a total overwrite: for every state attribute A and every ordered pair (v1, v2) of its values,
+        ``set_state(<state with A = v1>)`` on a flow with A = v2 yields the state with A = v1 (an attribute written only when
+        the state carries a value keeps what was attached after the backup).
+NOT decided: key agreement beyond what the scenarios exercise (R36.1), ``Flow.from_state`` itself (the registry lookup is C36's
+subject; here ``from_state(state)`` = a new instance of the receiver's class + interpreted ``set_state(state)``).
 """
 
 from __future__ import annotations
 
 import ast
+import copy as _copy
 
 from ..core import AnalysisError
-from ..core import norm
-from ..model import attr_chain
-from ..model import last_attr
-from ..model import stmts_of
+from ..pyint import ClassRef
+from ..pyint import Interp
+from ..pyint import NullLog
+from ..pyint import Raised
+from ..pyint import Rec
 from ..selftest import Mutant
 from ._helpers_E import expect
-from ._helpers_E import fact
-from ._helpers_E import params
-from ._helpers_E import paths
-from ._helpers_E import show
 
 PROP = "C40"
 REG = {
-    "strength": "narrow",
-    "technique": "path rules on Flow.backup/revert/modified/copy and Serializable.copy + abstract two-run evaluation of Flow.get_state's self-referential 'backup' entry "
-    "+ must-definition analysis of every flow class's set_state against the attributes its get_state reads",
-    "claim": "backup stores a state only when none exists, revert restores it through set_state and leaves no backup, modified is the "
-    "inequality of backup and current state and is False for an unedited flow (R40.3); copies get a fresh id before from_state, are not "
-    "live, and neither copies nor backups alias the flow's mutable members; set_state overwrites every attribute get_state reads on every path (R40.4), "
-    "so revert cannot keep anything attached after the backup.",
-    "note": "Assumes set_state(get_state()) is the identity on flow attributes (key agreement is R36.1's subject).",
+    "strength": "partial",
+    "technique": "abstract interpretation (pyint) of get_state / set_state / backup / revert / modified / copy of every flow class on abstract flows "
+    "whose attributes range over None / falsy / two truthy values; object-graph aliasing check between states, backups, copies and the flow",
+    "claim": "backup stores the state only when none exists, revert restores it through set_state and leaves no backup, modified is False "
+    "without a backup / for an unedited flow and True after each single-attribute edit; set_state overwrites every state attribute for every "
+    "value pair; copies get a fresh uuid before from_state, equal content, live=False and share no mutable object with the original; "
+    "get_state shares no mutable object with the flow.",
+    "note": "Sub-objects (connections, messages, errors) are opaque serialisable values; Flow.from_state is modelled as new instance + set_state.",
 }
 
 FLOW = "mitmproxy/flow.py"
 SER = "mitmproxy/coretypes/serializable.py"
-BK = "self._backup"
-
-
-def _q(s):
-    return s.replace('"', "'")
-
-
-# ---------------------------------------------------------------------------------------------------
-# R40.3: abstract evaluation of Flow.get_state with respect to the "backup" entry
-
-
-class _Unmodelled(Exception):
-    pass
-
-
-def _eval_get_state(fn, bk):
-    """bk = None (no backup) | (frozenset(keys of snapshot), snapshot's 'backup' value: 'none' | 'dict').
-    Returns (frozenset(keys), value of the 'backup' entry: 'absent' | 'none' | 'dict')."""
-    body = stmts_of(fn)
-    if not body or not isinstance(body[0], (ast.Assign, ast.AnnAssign)) or not isinstance(body[0].value, ast.Dict):
-        raise _Unmodelled("does not start with 'state = {...}'")
-    tgt = body[0].targets[0] if isinstance(body[0], ast.Assign) else body[0].target
-    if not isinstance(tgt, ast.Name):
-        raise _Unmodelled("state literal is not bound to a name")
-    sv = tgt.id
-    d = body[0].value
-    if any(k is None or not isinstance(k, ast.Constant) for k in d.keys):
-        raise _Unmodelled("state literal has computed keys")
-    st = {"keys": {k.value for k in d.keys}, "b": "absent"}
-
-    def is_bk(e):
-        return attr_chain(e) == BK
-
-    def ev(e):
-        if isinstance(e, ast.Constant) and e.value is None:
-            return "none"
-        if is_bk(e) or (isinstance(e, ast.Call) and last_attr(e.func) in ("deepcopy", "copy", "dict") and len(e.args) == 1 and is_bk(e.args[0])):
-            return "none" if bk is None else "dict"
-        if isinstance(e, ast.IfExp):
-            return ev(e.body) if cond(e.test) else ev(e.orelse)
-        raise _Unmodelled(f"backup entry value {ast.unparse(e)}")
-
-    def equal():
-        if bk is None:
-            return False  # None == <dict>
-        keys_b, val_b = bk
-        if frozenset(st["keys"]) != keys_b:
-            return False
-        return ("backup" not in st["keys"]) or st["b"] == val_b  # all other components are equal by hypothesis
-
-    def cond(t):
-        if isinstance(t, ast.UnaryOp) and isinstance(t.op, ast.Not):
-            return not cond(t.operand)
-        if isinstance(t, ast.BoolOp):
-            vals = [cond(v) for v in t.values]
-            return all(vals) if isinstance(t.op, ast.And) else any(vals)
-        if is_bk(t):
-            return bk is not None
-        if isinstance(t, ast.Compare) and len(t.ops) == 1:
-            l, r, op = t.left, t.comparators[0], t.ops[0]
-            sides = {ast.unparse(l), ast.unparse(r)}
-            if sides == {BK, sv} and isinstance(op, (ast.Eq, ast.NotEq)):
-                return equal() if isinstance(op, ast.Eq) else not equal()
-            if is_bk(l) and isinstance(r, ast.Constant) and r.value is None and isinstance(op, (ast.Is, ast.IsNot, ast.Eq, ast.NotEq)):
-                isnone = bk is None
-                return isnone if isinstance(op, (ast.Is, ast.Eq)) else not isnone
-        raise _Unmodelled(f"condition {ast.unparse(t)}")
-
-    if "backup" in st["keys"]:
-        st["b"] = ev(d.values[[k.value for k in d.keys].index("backup")])
-
-    def run(stmts):
-        for s in stmts:
-            if isinstance(s, ast.Assign) and len(s.targets) == 1 and isinstance(s.targets[0], ast.Subscript) and attr_chain(s.targets[0].value) == sv \
-                    and isinstance(s.targets[0].slice, ast.Constant):
-                k = s.targets[0].slice.value
-                if k == "backup":
-                    st["b"] = ev(s.value)
-                elif BK in ast.unparse(s.value):
-                    raise _Unmodelled(f"entry {k!r} depends on the backup")
-                st["keys"].add(k)
-            elif isinstance(s, ast.If):
-                run(s.body if cond(s.test) else s.orelse)
-            elif isinstance(s, ast.Return):
-                if attr_chain(s.value) != sv:
-                    raise _Unmodelled(f"returns {ast.unparse(s.value) if s.value else None}")
-                return True
-            else:
-                raise _Unmodelled(f"statement {ast.unparse(s)[:60]}")
-        return False
-
-    if not run(body[1:]):
-        raise _Unmodelled("no 'return state' at the end")
-    return frozenset(st["keys"]), st["b"]
-
-# ---------------------------------------------------------------------------------------------------
-# R40.4: set_state definitely writes every attribute get_state reads
-
 FLOW_CLASSES = (("mitmproxy/flow.py", "Flow"), ("mitmproxy/http.py", "HTTPFlow"), ("mitmproxy/tcp.py", "TCPFlow"),
                 ("mitmproxy/udp.py", "UDPFlow"), ("mitmproxy/dns.py", "DNSFlow"))
 
 
-def _self_attr(e):
-    """'A' for the expression ``self.A`` (first level only), else None."""
-    if isinstance(e, ast.Attribute) and isinstance(e.value, ast.Name) and e.value.id == "self":
-        return e.attr
+# ---------------------------------------------------------------------------------------------------
+# the rule's own abstract values (native objects: pyint hands them around like trusted-library values)
+
+
+class _Sub:
+    """opaque serialisable sub-object (connection / message / error / websocket data)"""
+
+    _pyint_accepts_abstract = True
+
+    def __init__(self, kind, content):
+        self.kind = kind
+        self.content = content
+
+    def get_state(self):
+        return _copy.deepcopy(self.content)
+
+    def set_state(self, state):
+        self.content = state  # consumes the state, like the repository's set_state
+
+    def copy(self):
+        return _Sub(self.kind, _copy.deepcopy(self.content))
+
+    def __bool__(self):
+        return True
+
+    def __eq__(self, other):
+        return isinstance(other, _Sub) and other.content == self.content
+
+    __hash__ = None
+
+    def __repr__(self):
+        return f"<{self.kind} {self.content!r}>"
+
+    def __getattr__(self, name):
+        if name.startswith("__"):
+            raise AttributeError(name)
+        raise AnalysisError(f"C40: the abstract sub-object {self.kind} has no attribute '{name}' (extend the rule's domain)")
+
+
+class _FreshId:
+    def __init__(self, n):
+        self.n = n
+        self.hex = f"fresh{n:032d}"
+
+    def __str__(self):
+        return f"fresh-{self.n}"
+
+    __repr__ = __str__
+
+
+class _Uuid:
+    """stand-in for the uuid module: every generator call yields a value that is recognisably fresh"""
+
+    def __init__(self):
+        self.n = 0
+
+    def _gen(self, *a, **k):
+        self.n += 1
+        return _FreshId(self.n)
+
+    uuid1 = uuid4 = uuid6 = uuid7 = _gen
+
+
+class _Time:
+    def __init__(self):
+        self.t = 1000.0
+
+    def time(self):
+        self.t += 1.0
+        return self.t
+
+    monotonic = perf_counter = time
+
+
+def _is_fresh(v) -> bool:
+    return (isinstance(v, str) and v.startswith("fresh")) or isinstance(v, _FreshId)
+
+
+class _FlowInterp(Interp):
+    """pyint + ``<SubObjectClass>.from_state(state)`` builds one of the rule's opaque sub-objects"""
+
+    flow_from_state = None  # set by the harness: ClassRef of a flow class -> from_state stand-in
+
+    def class_attr(self, cref, attr, depth):
+        if attr == "from_state":
+            names = {c.name for _, c in self.model.mro(cref.mod.rel, getattr(cref.node, "_qual", cref.node.name))}
+            if "Flow" in names and self.flow_from_state is not None:
+                return self.flow_from_state(cref)  # `type(self).from_state(state)` / `HTTPFlow.from_state(state)`
+            if "Flow" not in names:
+                kind = cref.node.name
+
+                def from_state(state, _kind=kind):
+                    return _Sub(_kind, state)
+
+                from_state._pyint_accepts_abstract = True
+                return from_state
+        return super().class_attr(cref, attr, depth)
+
+
+# ---------------------------------------------------------------------------------------------------
+# attribute discovery
+
+
+_META = ("_cls", "_bases", "_impl", "_name", "_items")
+_SCALARS = {"str": "str", "bytes": "str", "bool": "bool", "float": "num", "int": "num"}
+
+
+def _split_union(t: str):
+    depth, cur, parts = 0, "", []
+    for ch in t:
+        if ch in "[(":
+            depth += 1
+        elif ch in "])":
+            depth -= 1
+        if ch == "|" and depth == 0:
+            parts.append(cur)
+            cur = ""
+        else:
+            cur += ch
+    parts.append(cur)
+    return parts
+
+
+def _kind_of_annotation(text: str):
+    """(kind, optional) of an attribute annotation, None when the annotation says nothing usable"""
+    t = text.replace("typing.", "").replace(" ", "").strip("'\"")
+    opt = False
+    if t.startswith("Optional[") and t.endswith("]"):
+        t, opt = t[len("Optional["):-1], True
+    parts = _split_union(t)
+    if "None" in parts:
+        opt = True
+        parts = [p for p in parts if p != "None"]
+    if len(parts) != 1:
+        return None
+    b = parts[0]
+    head = b.split("[")[0].split(".")[-1]
+    if b in _SCALARS:
+        return _SCALARS[b], opt
+    if head in ("dict", "Dict", "MutableMapping", "Mapping"):
+        return "dict", opt
+    if head in ("list", "List", "Sequence", "MutableSequence"):
+        return "list", opt
+    if head in ("Any", "object", "ClassVar", "Callable", "tuple", "set", "frozenset", "State"):
+        return None
+    return "sub", opt
+
+
+def _kind_of_value(v):
+    if isinstance(v, bool):
+        return "bool", False
+    if isinstance(v, (str, bytes)):
+        return "str", False
+    if isinstance(v, (int, float)):
+        return "num", False
+    if isinstance(v, dict):
+        return "dict", False
+    if isinstance(v, list):
+        return "list", False
+    if isinstance(v, _Sub):
+        return "sub", False
     return None
 
 
-def _state_attrs(fn):
-    """First-level attributes of self that get_state reads as data (not the methods it calls)."""
+def _attributes(model, rel, cl, rec):
+    """{public data attribute: (kind, optional)} of the flow class, from class-level annotations, ``__init__`` and the instance"""
     out = {}
-    for n in ast.walk(fn):
-        a = _self_attr(n)
-        if a is None or not isinstance(n.ctx, ast.Load):
+    for m, c in reversed(model.mro(rel, cl)):
+        if c.name in ("Serializable", "object", "ABC"):
             continue
-        par = n._parent
-        if isinstance(par, ast.Call) and par.func is n:
-            continue  # self.method(...)
-        out.setdefault(a, n)
+        for st in c.body:
+            if isinstance(st, ast.AnnAssign) and isinstance(st.target, ast.Name) and not st.target.id.startswith("_"):
+                ann = ast.unparse(st.annotation)
+                if "ClassVar" in ann:
+                    continue
+                k = _kind_of_annotation(ann)
+                if k is not None:
+                    out[st.target.id] = k
+            elif isinstance(st, ast.FunctionDef) and st.name == "__init__":
+                for n in ast.walk(st):
+                    if isinstance(n, ast.AnnAssign) and isinstance(n.target, ast.Attribute) and isinstance(n.target.value, ast.Name) and n.target.value.id == "self" \
+                            and not n.target.attr.startswith("_"):
+                        k = _kind_of_annotation(ast.unparse(n.annotation))
+                        if k is not None:
+                            out[n.target.attr] = k
+    for a, v in rec.__dict__.items():
+        if a.startswith("_") or a in out or callable(v) or a == "type":
+            continue
+        k = _kind_of_value(v)
+        if k is not None:
+            out[a] = k
+    out.pop("type", None)
     return out
 
 
-class _MustDef:
-    """Attributes of self definitely written on every normally-ending path of a method (raising paths restore nothing
-    and are not revert results).  Unmodelled writers are recorded in ``self.opaque`` (the rule then refuses instead of alarming)."""
+def _sub(attr, n):
+    return _Sub(attr, {"of": attr, "v": n, "nested": {"l": [n, n + 1]}})
 
-    def __init__(self, model, rel, cls):
-        self.model = model
-        self.mro = model.mro(rel, cls)
-        self.opaque = []
-        self.asserted = set()
-        self.stack = []
 
-    def _find(self, classes, name):
-        for m, c in classes:
-            for st in c.body:
-                if isinstance(st, (ast.FunctionDef, ast.AsyncFunctionDef)) and st.name == name:
-                    return c, st
-        return None
+def _values(attr, kind, opt):
+    """factories of the values the attribute ranges over; index 0 of the non-optional part is falsy where the kind has a falsy value"""
+    if kind == "str":
+        vals = [lambda: "", lambda: f"{attr}-a", lambda: f"{attr}-b"]
+    elif kind == "bool":
+        vals = [lambda: False, lambda: True]
+    elif kind == "num":
+        vals = [lambda: 0.0, lambda: 1.5, lambda: 2.5]
+    elif kind == "dict":
+        vals = [lambda: {}, lambda: {"a": ["x"], "n": {"k": [1]}}, lambda: {"a": ["z"]}]
+    elif kind == "list":
+        vals = [lambda: [], lambda: [_sub(attr, 1)], lambda: [_sub(attr, 1), _sub(attr, 2)]]
+    else:
+        vals = [lambda: _sub(attr, 1), lambda: _sub(attr, 2)]
+    if opt:
+        vals = [lambda: None] + vals
+    return vals
 
-    def method(self, fn, owner):
-        """must-def set of ``fn`` (defined in class ``owner``)."""
-        if fn in self.stack or len(self.stack) > 4:
-            self.opaque.append(f"recursive/deep helper {fn.name}")
-            return set()
-        self.stack.append(fn)
-        self.owner_stack = getattr(self, "owner_stack", []) + [owner]
-        fall, exits = self.block(stmts_of(fn), set())
-        self.stack.pop()
-        self.owner_stack.pop()
-        ends = exits + ([fall] if fall is not None else [])
-        return set.intersection(*ends) if ends else set()
 
-    # expressions: walrus / calls evaluated inside an expression may write too (self.x.set_state(..), helpers)
-    def expr(self, e, d):
-        d = set(d)
-        if e is None:
-            return d
-        for n in ast.walk(e):
-            if isinstance(n, ast.Call):
-                d |= self.call(n)
-            elif isinstance(n, (ast.Lambda, ast.ListComp, ast.SetComp, ast.DictComp, ast.GeneratorExp)):
-                pass
-        return d
+def _base_index(kind, opt):
+    """index of the 'rich' default: the first truthy value"""
+    i = 0 if kind == "sub" else 1
+    return i + (1 if opt else 0)
 
-    def call(self, c):
-        f = c.func
-        if isinstance(f, ast.Attribute):
-            a = _self_attr(f.value)
-            if a is not None and f.attr == "set_state":
-                return {a}  # in-place restore of a sub-object
-            if isinstance(f.value, ast.Name) and f.value.id == "self":
-                hit = self._find(self.mro, f.attr)
-                if hit is not None:
-                    return self.method(hit[1], hit[0])
-                return set()
-            v = f.value
-            if isinstance(v, ast.Call) and isinstance(v.func, ast.Name) and v.func.id == "super" and not v.args:
-                owner = self.owner_stack[-1]
-                idx = [i for i, (m, k) in enumerate(self.mro) if k is owner]
-                if not idx:
-                    self.opaque.append(f"super() outside the MRO in {norm(c)[:60]}")
-                    return set()
-                hit = self._find(self.mro[idx[0] + 1:], f.attr)
-                if hit is not None:
-                    return self.method(hit[1], hit[0])
-                return set()
-        if isinstance(f, ast.Name) and f.id in ("setattr", "vars") or (isinstance(f, ast.Attribute) and f.attr in ("update", "__setattr__") and "__dict__" in norm(f)):
-            self.opaque.append(f"dynamic attribute write {norm(c)[:60]}")
-        return set()
 
-    def store(self, target, value, d):
-        d = set(d)
-        for t in target.elts if isinstance(target, (ast.Tuple, ast.List)) else [target]:
-            a = _self_attr(t)
-            if a is None:
+def _mutate(kind, v):
+    """an in-place edit of a container value (None when the kind has none)"""
+    if kind == "dict" and isinstance(v, dict) and isinstance(v.get("a"), list):
+        v["a"].append("edited-in-place")
+        return True
+    if kind == "list" and isinstance(v, list):
+        v.append(_sub("appended", 9))
+        return True
+    return False
+
+
+# ---------------------------------------------------------------------------------------------------
+# object graph
+
+
+def _reach(roots):
+    """{id: (object, label)} of every mutable object reachable from the labelled roots"""
+    out = {}
+    todo = list(roots)
+    while todo:
+        label, v = todo.pop()
+        if isinstance(v, (dict, list, set, bytearray, _Sub, Rec)):
+            if id(v) in out:
                 continue
-            reads_back = value is not None and any(_self_attr(n) == a and isinstance(n.ctx, ast.Load) and not (isinstance(n._parent, ast.Call) and n._parent.func is n)
-                                                   and not self._only_tested(n) for n in ast.walk(value))
-            if not reads_back:
-                d.add(a)
-        return d
-
-    @staticmethod
-    def _only_tested(n):
-        """Is the read of self.A only a condition (``X if self.A else Y`` test), not a stored value?"""
-        par = n._parent
-        return isinstance(par, ast.IfExp) and par.test is n
-
-    def block(self, stmts, d):
-        """-> (set at fall-through | None, [sets at return])"""
-        exits = []
-        cur = set(d)
-        for s in stmts:
-            if cur is None:
-                break
-            if isinstance(s, ast.Assign):
-                cur = self.expr(s.value, cur)
-                for t in s.targets:
-                    cur = self.store(t, s.value, cur)
-            elif isinstance(s, ast.AnnAssign):
-                if s.value is not None:
-                    cur = self.store(s.target, s.value, self.expr(s.value, cur))
-            elif isinstance(s, ast.AugAssign):
-                cur = self.expr(s.value, cur)
-            elif isinstance(s, ast.Expr):
-                cur = self.expr(s.value, cur)
-            elif isinstance(s, ast.Assert):
-                # assert <state value> == self.A : nothing to restore for A when it holds
-                t = s.test
-                if isinstance(t, ast.Compare) and len(t.ops) == 1 and isinstance(t.ops[0], (ast.Eq, ast.Is)):
-                    for side in (t.left, t.comparators[0]):
-                        a = _self_attr(side)
-                        if a is not None:
-                            self.asserted.add(a)
-                cur = self.expr(t, cur)
-            elif isinstance(s, ast.If):
-                c0 = self.expr(s.test, cur)
-                f1, e1 = self.block(s.body, c0)
-                f2, e2 = self.block(s.orelse, c0)
-                exits += e1 + e2
-                falls = [x for x in (f1, f2) if x is not None]
-                cur = set.intersection(*falls) if falls else None
-            elif isinstance(s, ast.Match):
-                c0 = self.expr(s.subject, cur)
-                falls = []
-                total = False
-                for case in s.cases:
-                    f1, e1 = self.block(case.body, c0)
-                    exits += e1
-                    if f1 is not None:
-                        falls.append(f1)
-                    if case.guard is None and isinstance(case.pattern, ast.MatchAs) and case.pattern.pattern is None:
-                        total = True
-                if not total:
-                    falls.append(c0)
-                cur = set.intersection(*falls) if falls else None
-            elif isinstance(s, ast.Return):
-                exits.append(self.expr(s.value, cur))
-                cur = None
-            elif isinstance(s, ast.Raise):
-                cur = None
-            elif isinstance(s, (ast.Pass, ast.Import, ast.ImportFrom, ast.Global, ast.Nonlocal, ast.FunctionDef, ast.AsyncFunctionDef, ast.ClassDef, ast.Delete)):
-                pass
-            else:
-                # loops / try / with: zero iterations or an exception may skip the body - count nothing, but remember
-                # that writes in there are not modelled so that a missing attribute is refused, not alarmed
-                if any(_self_attr(n) is not None and isinstance(n.ctx, ast.Store) for n in ast.walk(s)) or any(isinstance(n, ast.Call) for n in ast.walk(s)):
-                    self.opaque.append(f"{type(s).__name__} statement `{norm(s)[:50]}`")
-        return cur, exits
+            out[id(v)] = (v, label)
+        if isinstance(v, dict):
+            todo.extend((label, x) for x in v.values())
+        elif isinstance(v, (list, tuple, set, frozenset)):
+            todo.extend((label, x) for x in v)
+        elif isinstance(v, _Sub):
+            todo.append((label, v.content))
+        elif isinstance(v, Rec):
+            todo.extend((label, x) for k, x in v.__dict__.items() if k not in _META and not callable(x))
+    return out
 
 
-def _set_state_total(ctx):
+def _flow_roots(rec, skip=()):
+    return [(f"self.{k}", v) for k, v in rec.__dict__.items() if k not in _META and k not in skip and not callable(v)]
+
+
+def _shared(roots_a, roots_b):
+    a, b = _reach(roots_a), _reach(roots_b)
+    return sorted({f"{a[i][1]} is shared with {b[i][1]}" for i in a.keys() & b.keys()})
+
+
+# ---------------------------------------------------------------------------------------------------
+# the scenarios
+
+
+class _Harness:
+    def __init__(self, ctx, rel, cl, reduced=()):
+        self.ctx, self.rel, self.cl = ctx, rel, cl
+        self.reduced = set(reduced)
+        self.model = ctx.model
+        self.uuid = _Uuid()
+        self.it = _FlowInterp(self.model, trusted_modules={"copy": _copy, "uuid": self.uuid, "time": _Time(), "logging": NullLog()}, max_steps=4_000_000)
+        self.cref = ClassRef(self.model.module(rel), self.model.cls(rel, cl))
+        self.it.flow_from_state = self.from_state_of
+        self.fails = {}  # (rule, method, kind) -> set(details)
+        self.slot = None  # name of the attribute holding the backup (discovered by scenario_basic)
+        self.n = 0
+        probe = self.new()
+        self.attrs = _attributes(self.model, rel, cl, probe)
+        ctx.require(len(self.attrs) >= 8, f"{cl}: only {sorted(self.attrs)} discovered as data attributes (model of the flow class not understood)")
+
+    # -- construction
+    def new(self, cref=None):
+        cref = cref or self.cref
+        rec = self.it.instantiate(cref, [_sub("client_conn", 0), _sub("server_conn", 0)], {}, 0, f"{cref.node.name}(client, server)")
+        if "type" not in rec.__dict__:
+            object.__setattr__(rec, "type", cref.node.name.removesuffix("Flow").lower())  # what __init_subclass__ derives
+        object.__setattr__(rec, "from_state", self.from_state_of(cref))
+        return rec
+
+    def from_state_of(self, cref):
+        """stand-in for Flow.from_state on a flow class: a new instance (constructor defaults) + the interpreted set_state(state)"""
+
+        def from_state(state, _self=self, _cref=cref):
+            new = _self.new(_cref if _cref.node.name != "Flow" else None)
+            _self.it.method(new, "set_state", state)
+            return new
+
+        from_state._pyint_accepts_abstract = True
+        return from_state
+
+    def make(self, **over):
+        """a flow with every attribute at its rich default, except ``over`` = {attr: value index}"""
+        rec = self.new()
+        for a, (kind, opt) in self.attrs.items():
+            vals = _values(a, kind, opt)
+            object.__setattr__(rec, a, vals[over.get(a, _base_index(kind, opt))]())
+        return rec
+
+    def set(self, rec, a, idx):
+        kind, opt = self.attrs[a]
+        object.__setattr__(rec, a, _values(a, kind, opt)[idx]())
+
+    # -- interpreted calls
+    def call(self, rec, name, *args):
+        self.n += 1
+        try:
+            return True, self.it.method(rec, name, *args)
+        except Raised as r:
+            return False, r.name + (f" ({r.msg})" if r.msg else "")
+
+    def state(self, rec):
+        ok, s = self.call(rec, "get_state")
+        if not ok:
+            raise AnalysisError(f"{self.cl}.get_state raises {s} on an abstract flow: not modelled")
+        if not isinstance(s, dict):
+            raise AnalysisError(f"{self.cl}.get_state returns {type(s).__name__}, not a dict: not modelled")
+        return s
+
+    def fail(self, rule, method, kind, detail=""):
+        self.fails.setdefault((rule, method, kind), set()).add(detail)
+
+    # -- checks
+    def modified_is(self, rec, want, rule, kind, detail=""):
+        ok, v = self.call(rec, "modified")
+        if not ok:
+            self.fail(rule, "modified", f"modified() raises {v}", detail)
+            return False
+        if bool(v) != want:
+            self.fail(rule, "modified", kind, detail)
+            return False
+        return True
+
+    # The scenarios are observational: what is compared are get_state() results and modified() answers.  The attribute that holds
+    # the backup is *discovered* (the attribute that equals the state after the first backup()); it is used only for the more
+    # precise diagnoses and for the aliasing check of the stored backup.
+    def stored(self, rec):
+        return rec.__dict__.get(self.slot) if self.slot else None
+
+    def scenario_basic(self):
+        f = self.make()
+        if not self.modified_is(f, False, "R40.1", "modified() is not False for a flow without a backup"):
+            return
+        s_before = self.state(f)
+        ok, v = self.call(f, "revert")
+        if not ok or self.state(f) != s_before:
+            self.fail("R40.1", "revert", "revert() without a backup " + (f"raises {v}" if not ok else "changes the flow"))
+            return
+        s0 = _copy.deepcopy(self.state(f))
+        before = {k: _copy.deepcopy(v) for k, v in f.__dict__.items() if k not in _META and not callable(v)}
+        ok, v = self.call(f, "backup")
+        if not ok:
+            self.fail("R40.1", "backup", f"backup() raises {v}")
+            return
+        changed = [k for k, v in f.__dict__.items() if k not in _META and not callable(v) and (k not in before or before[k] != v)]
+        slots = [k for k in changed if f.__dict__[k] == s0]
+        self.slot = slots[0] if len(slots) == 1 else None
+        if self.slot is None and "_backup" in f.__dict__:
+            # nothing that equals the state was stored: with today's representation (Flow._backup holds the state) that is the defect itself
+            self.slot = "_backup"
+            self.fail("R40.1", "backup", "backup() on a flow without a backup does not store get_state()")
+            return
+        if self.slot:
+            sh = _shared([("the stored backup", f.__dict__[self.slot])], _flow_roots(f, skip=(self.slot,)))
+            if sh:
+                self.fail("R40.2", "get_state", "the stored backup shares a mutable object with the flow", "; ".join(sh))
+        self.modified_is(f, False, "R40.3", "modified() is True for an unedited flow with a backup")
+        s1 = self.state(f)
+        sh = _shared([(f"state[{k!r}]", v) for k, v in s1.items()], _flow_roots(f))
+        if sh:
+            self.fail("R40.2", "get_state", "get_state() shares a mutable object with the flow", "; ".join(sh))
+
+    def edit(self, rec, a, j):
+        if j == "inplace":
+            return _mutate(self.attrs[a][0], rec.__dict__[a])
+        self.set(rec, a, j)
+        return True
+
+    def scenario_edit(self, a, i, j):
+        """attribute ``a``: value i when the backup is taken, then edited to value j (j == 'inplace': container mutated in place)"""
+        what = f"{a}: {self.describe(a, i)} -> {self.describe(a, j)}"
+        f = self.make(**{a: i})
+        s0 = _copy.deepcopy(self.state(f))
+        ok, v = self.call(f, "backup")
+        if not ok or (self.slot and self.stored(f) != s0):
+            self.fail("R40.1", "backup", f"backup() raises {v}" if not ok else "backup() on a flow without a backup does not store get_state()", what)
+            return
+        if not self.edit(f, a, j):
+            return
+        # the same flow, edited alike, that never had a backup: what the edit does to the state, and the subject of R40.4
+        g = self.make(**{a: i})
+        self.edit(g, a, j)
+        s_edit = _copy.deepcopy(self.state(g))
+        if s_edit == s0:
+            if j == "inplace":
+                return  # (the mutation is not part of the state)
+            raise AnalysisError(f"{self.cl}: editing {what} does not change get_state() although other values of the attribute do: not modelled")
+        if self.slot and self.stored(f) != s0:
+            self.fail("R40.2", "get_state", "the stored backup shares a mutable object with the flow", f"an in-place edit of self.{a} changes the stored backup")
+            return
+        if not self.modified_is(f, True, "R40.1", "modified() is not True after an edit that changes the state", what):
+            return
+        # a second backup keeps the first one
+        ok, v = self.call(f, "backup")
+        if not ok or (self.slot and self.stored(f) != s0):
+            self.fail("R40.1", "backup", f"backup() raises {v}" if not ok else "a second backup() overwrites the existing backup", what)
+            return
+        # R40.4: set_state alone
+        ok, v = self.call(g, "set_state", _copy.deepcopy(s0))
+        if not ok:
+            self.fail("R40.4", "set_state", f"set_state(get_state()) raises {v}", what)
+            return
+        sg = self.state(g)
+        if sg != s0:
+            keys = sorted(k for k in set(sg) | set(s0) if sg.get(k, "<absent>") != s0.get(k, "<absent>"))
+            self.fail("R40.4", "set_state", f"set_state does not restore {keys}", what)
+            return
+        # R40.1: revert restores what set_state restores and leaves no backup
+        ok, v = self.call(f, "revert")
+        if not ok:
+            self.fail("R40.1", "revert", f"revert() raises {v}", what)
+            return
+        if self.state(f) != s0:
+            self.fail("R40.1", "revert", "backup(), edit, backup(), revert() does not restore the state of the first backup (set_state(<that state>) would)", what)
+            return
+        if not self.modified_is(f, False, "R40.1", "modified() is not False after revert()", what):
+            return
+        if self.slot and self.stored(f):
+            self.fail("R40.1", "revert", "revert() leaves a backup behind", what)
+            return
+        self.edit(f, a, j)
+        s_again = _copy.deepcopy(self.state(f))
+        ok, v = self.call(f, "revert")
+        if not ok or self.state(f) != s_again:
+            self.fail("R40.1", "revert", f"a second revert() raises {v}" if not ok else "revert() leaves a backup behind: a second revert() changes the flow again", what)
+
+    def scenario_undo(self, a, i, j):
+        what = f"{a}: {self.describe(a, i)} -> {self.describe(a, j)} -> {self.describe(a, i)}"
+        f = self.make(**{a: i})
+        ok, v = self.call(f, "backup")
+        if not ok:
+            return
+        self.set(f, a, j)
+        self.set(f, a, i)
+        self.modified_is(f, False, "R40.1", "modified() is not False after the edit was undone", what)
+
+    def scenario_cycles(self):
+        """all attributes edited at once, two backup / edit / revert cycles"""
+        f = self.make()
+        for cycle in (1, 2):
+            s0 = _copy.deepcopy(self.state(f))
+            ok, v = self.call(f, "backup")
+            if not ok or (self.slot and self.stored(f) != s0):
+                self.fail("R40.1", "backup", f"backup() raises {v}" if not ok else "backup() after a revert() does not store get_state()", f"cycle {cycle}")
+                return
+            for a, (kind, opt) in self.attrs.items():
+                n = len(_values(a, kind, opt))
+                self.set(f, a, (_base_index(kind, opt) + cycle) % n)
+            if not self.modified_is(f, True, "R40.1", "modified() is not True after an edit that changes the state", f"all attributes, cycle {cycle}"):
+                return
+            ok, v = self.call(f, "revert")
+            if not ok or self.state(f) != s0:
+                g = self.make()
+                okg, _ = self.call(g, "set_state", _copy.deepcopy(s0))
+                if okg and self.state(g) != s0:
+                    self.fail("R40.4", "set_state", "set_state does not restore the state when all attributes were edited", f"cycle {cycle}")
+                else:
+                    self.fail("R40.1", "revert", f"revert() raises {v}" if not ok else "revert() does not restore the backed-up state", f"all attributes, cycle {cycle}")
+                return
+            if not self.modified_is(f, False, "R40.1", "modified() is not False after revert()", f"cycle {cycle}"):
+                return
+
+    def scenario_copy(self, with_backup):
+        what = "flow with a backup and later edits" if with_backup else "flow without a backup"
+        f = self.make()
+        object.__setattr__(f, "live", True)
+        if with_backup:
+            ok, v = self.call(f, "backup")
+            if not ok:
+                return
+            for a, (kind, opt) in self.attrs.items():
+                if kind in ("str", "dict") and a != "id":
+                    self.set(f, a, len(_values(a, kind, opt)) - 1)
+        before = self.uuid.n
+        ok, c = self.call(f, "copy")
+        if not ok:
+            self.fail("R40.2", "copy", f"copy() raises {c}", what)
+            return
+        if not isinstance(c, Rec) or c is f:
+            self.fail("R40.2", "copy", "copy() does not return a new flow", what)
+            return
+        cid, fid = c.__dict__.get("id"), f.__dict__.get("id")
+        if cid == fid:
+            self.fail("R40.2", "copy", "the copy has the id of the original", what)
+            return
+        if not (_is_fresh(cid) and self.uuid.n > before):
+            raise AnalysisError(f"{self.cl}.copy: the copy's id {cid!r} differs from the original's but does not come from a uuid generator: freshness not modelled")
+        if c.__dict__.get("live") is not False:
+            self.fail("R40.2", "copy", "the copy is live", what)
+            return
+        sc, sf = dict(self.state(c)), dict(self.state(f))
+        sc.pop("id", None)
+        sf.pop("id", None)
+        if sc != sf:
+            keys = sorted(k for k in set(sc) | set(sf) if sc.get(k, "<absent>") != sf.get(k, "<absent>"))
+            self.fail("R40.2", "copy", f"the copy's content differs from the original's in {keys}", what)
+            return
+        sh = _shared(_flow_roots(c), _flow_roots(f))
+        if sh:
+            self.fail("R40.2", "copy", "the copy shares a mutable object with the original", "; ".join(s.replace("self.", "copy.", 1) for s in sh))
+
+    def describe(self, a, i):
+        if i == "inplace":
+            return "mutated in place"
+        v = _values(a, *self.attrs[a])[i]()
+        if v is None:
+            return "None"
+        if isinstance(v, _Sub):
+            return f"<{v.kind} #{v.content['v']}>"
+        if isinstance(v, list):
+            return f"[{len(v)} item(s)]"
+        if isinstance(v, dict):
+            return "{}" if not v else "{%d key(s)}" % len(v)
+        return repr(v)
+
+    # -- driver
+    def in_state(self, a):
+        """does the attribute take part in get_state() at all?"""
+        kind, opt = self.attrs[a]
+        seen = []
+        for i in range(len(_values(a, kind, opt))):
+            s = _copy.deepcopy(self.state(self.make(**{a: i})))
+            if s not in seen:
+                seen.append(s)
+        return len(seen) > 1
+
+    def run(self):
+        self.scenario_basic()
+        self.state_attrs = [a for a in self.attrs if self.in_state(a)]
+        self.ctx.require(len(self.state_attrs) >= 8, f"{self.cl}: only {self.state_attrs} influence get_state() (model of the flow class not understood)")
+        for a in self.state_attrs:
+            kind, opt = self.attrs[a]
+            n = len(_values(a, kind, opt))
+            for i in range(n):
+                for j in list(range(n)) + (["inplace"] if kind in ("dict", "list") else []):
+                    if i == j:
+                        continue
+                    if a in self.reduced and j != "inplace" and j != (i + 1) % n:
+                        continue  # quick tier: attributes handled by the base class got all pairs there; here one successor each
+                    self.scenario_edit(a, i, j)
+                    self.ctx.cells += 1
+            self.scenario_undo(a, _base_index(kind, opt), (_base_index(kind, opt) + 1) % n)
+        for a in self.attrs:
+            if a not in self.state_attrs:
+                # not part of the state (e.g. live): editing it must not make the flow "modified"
+                kind, opt = self.attrs[a]
+                f = self.make()
+                ok, _ = self.call(f, "backup")
+                if ok:
+                    self.set(f, a, (_base_index(kind, opt) + 1) % len(_values(a, kind, opt)))
+                    self.modified_is(f, False, "R40.1", "modified() is True although the state equals the backup", f"edit of self.{a}, which get_state() does not include")
+        self.scenario_cycles()
+        self.scenario_copy(False)
+        self.scenario_copy(True)
+
+
+def _one_class(ctx, rel, cl, base_attrs):
     m = ctx.model
-    for rel, cl in FLOW_CLASSES:
-        gs = m.module(rel).get(f"{cl}.get_state")
-        ss = m.module(rel).get(f"{cl}.set_state")
-        ctx.require(gs is not None and ss is not None, f"{cl} no longer defines both get_state and set_state: R40.4 must be re-anchored")
-        ctx.functions.add(f"{rel}::{cl}.set_state")
-        attrs = _state_attrs(gs)
-        ctx.require(attrs, f"{cl}.get_state reads no attribute of self (shape not modelled)")
-        md = _MustDef(m, rel, cl)
-        owner = m.cls(rel, cl)
-        written = md.method(ss, owner)
-        missing = sorted(a for a in attrs if a not in written and a not in md.asserted)
-        if missing and md.opaque:
-            raise AnalysisError(f"{cl}.set_state: {missing} not seen written, but the method contains writers R40.4 does not model: {md.opaque[:3]}")
-        ctx.cells += len(attrs)
-        for a in missing:
-            ctx.fail("R40.4", (rel, f"{cl}.set_state", ss), f"{cl}.set_state: self.{a} is not written on every path",
-                     f"{cl}.get_state puts self.{a} into the state, but set_state leaves it untouched on some path (e.g. when the state carries no value for it): "
-                     "revert() keeps what was attached after the backup, so the flow differs from the backed-up state while the backup is already cleared")
-        if not missing:
-            ctx.ok("R40.4", f"{cl}.set_state definitely writes {sorted(a for a in attrs if a in written)}" + (f"; asserted equal: {sorted(md.asserted & set(attrs))}" if md.asserted & set(attrs) else ""))
-
+    for name in ("get_state", "set_state", "backup", "revert", "modified", "copy"):
+        ctx.require(m.method(rel, cl, name) is not None, f"{cl}.{name} vanished: C40 must be re-anchored")
+    ctx.functions.add(f"{rel}::{cl}.get_state")
+    ctx.functions.add(f"{rel}::{cl}.set_state")
+    h = _Harness(ctx, rel, cl, reduced=base_attrs if (ctx.tier == "quick" and cl != "Flow") else ())
+    h.run()
+    if cl == "Flow":
+        base_attrs.update(h.state_attrs)
+    ctx.paths += h.n
+    by_rule = {}
+    for (rule, method, kind), details in sorted(h.fails.items()):
+        by_rule.setdefault(rule, []).append((method, kind, details))
+    for rule in ("R40.1", "R40.2", "R40.3", "R40.4"):
+        if rule not in by_rule:
+            continue
+        for method, kind, details in by_rule[rule]:
+            if method == "set_state":
+                owner = m.method(rel, cl, "set_state")
+                where = (owner[0].rel, f"{cl}.set_state", owner[1])
+            else:
+                owner = m.method(rel, cl, method)
+                oc = next((c.name for mm, c in m.mro(rel, cl) if any(st is owner[1] for st in c.body)), cl)
+                where = (owner[0].rel, f"{oc}.{method}", owner[1])
+            ds = sorted(d for d in details if d)
+            ctx.fail(rule, where, f"{cl}: {kind}", (f"on an abstract {cl}: " + "; ".join(ds[:4]) + (f"; ... ({len(ds)} cases)" if len(ds) > 4 else "")) if ds else f"on an abstract {cl}",
+                     cases=ds[:20])
+    sa = sorted(h.state_attrs)
+    if "R40.1" not in by_rule:
+        ctx.ok("R40.1", f"{cl}: backup stores get_state() once, revert == set_state(backup) and clears it, modified() follows the edits of {sa}")
+    if "R40.2" not in by_rule:
+        ctx.ok("R40.2", f"{cl}: copy has a fresh uuid id, equal content, live=False, no shared mutable object; get_state() / the backup share nothing with the flow")
+    if "R40.3" not in by_rule:
+        ctx.ok("R40.3", f"{cl}: unedited flow with a backup => modified() is False")
+    if "R40.4" not in by_rule:
+        ctx.ok("R40.4", f"{cl}.set_state restores every value of {sa} over every other value")
 
 
 def check(ctx):
-    ctx.rule("R40.1", "backup stores get_state() iff no backup exists; revert = set_state(backup) iff a backup exists, leaving no backup; modified = (backup != get_state()) or False without backup")
-    ctx.rule("R40.2", "Serializable.copy assigns a fresh uuid4 id before from_state; Flow.copy is not live; get_state deep-copies metadata and the backup")
-    ctx.rule("R40.3", "modified() is False for an unedited flow: the 'backup' entry of get_state() is the same in the stored snapshot and in the state compared with it")
-    ctx.rule("R40.4", "set_state is a total overwrite: every attribute a flow class's get_state reads is written (or asserted equal) on every path of its set_state, so revert restores exactly the backup")
+    ctx.rule("R40.1", "backup stores get_state() iff no backup exists; revert = set_state(backup) iff a backup exists, leaving no backup; modified = False without backup, True exactly after state-changing edits")
+    ctx.rule("R40.2", "a copy has a fresh uuid id (before from_state), equal content, live=False and shares no mutable object with the original; get_state() and the stored backup share no mutable object with the flow")
+    ctx.rule("R40.3", "modified() is False for an unedited flow with a backup, for every flow class")
+    ctx.rule("R40.4", "set_state is a total overwrite: every state attribute is restored from every value to every other value, so revert restores exactly the backup")
     m = ctx.model
-
-    # ---- R40.1 backup
-    bk = ctx.func(FLOW, "Flow.backup")
-    trs, eng = paths(bk, keep=lambda e: e[0] == "assign" and e[1] == BK)
-    ctx.paths += len(trs)
-    bad = False
-    seen = set()
-    for t, how in trs:
-        has = fact([e for e in t if e[0] == "cond"], BK)
-        asg = [e for e in t if e[0] == "assign"]
-        seen.add(has)
-        good = how == "return" and ((has is False and len(asg) == 1 and asg[0][2] == "self.get_state()") or (has is True and not asg))
-        if not good:
-            bad = True
-            ctx.fail("R40.1", (FLOW, "Flow.backup", bk), f"backup: path [{show(t)}]",
-                     "backup must store self.get_state() exactly when no backup exists (an existing backup must survive repeated backup() calls; a missing one must be created)")
-    ctx.require(bad or seen == {True, False}, "Flow.backup: both cases (backup exists / not) expected")
-    if not bad:
-        ctx.ok("R40.1", "backup: _backup := get_state() iff no backup")
-
-    # ---- R40.1 revert
-    rv = ctx.func(FLOW, "Flow.revert")
-    ss = ctx.func(FLOW, "Flow.set_state")
-    sp = params(ss)
-    set_state_clears = any(isinstance(n, ast.Assign) and attr_chain(n.targets[0]) == BK and isinstance(n.value, ast.Call) and ast.unparse(n.value.func) == f"{sp[0]}.pop"
-                           and n.value.args and isinstance(n.value.args[0], ast.Constant) and n.value.args[0].value == "backup" for n in ss.body) if sp else False
-    trs, eng = paths(rv, keep=lambda e: (e[0] == "assign" and e[1] == BK) or (e[0] == "call" and e[1] == "self.set_state"))
-    ctx.paths += len(trs)
-    bad = False
-    seen = set()
-    for t, how in trs:
-        has = fact([e for e in t if e[0] == "cond"], BK)
-        seen.add(has)
-        calls_ = [i for i, e in enumerate(t) if e[0] == "call"]
-        clears = [i for i, e in enumerate(t) if e[0] == "assign"]
-        if has is True:
-            good = how == "return" and len(calls_) == 1 and t[calls_[0]][2] == (BK,) and not any(i < calls_[0] for i in clears) \
-                and ((clears and t[clears[-1]][2] == "None") or (not clears and set_state_clears))
-        elif has is False:
-            good = not calls_
-        else:
-            good = False
-        if not good:
-            bad = True
-            ctx.fail("R40.1", (FLOW, "Flow.revert", rv), f"revert: path [{show(t)}]",
-                     "revert must call set_state(self._backup) while the backup is still in place, exactly when a backup exists, and leave no backup behind")
-    ctx.require(bad or seen == {True, False}, "Flow.revert: both cases (backup exists / not) expected")
-    if not bad:
-        ctx.ok("R40.1", "revert: set_state(_backup) iff backup, then no backup")
-
-    # ---- R40.1 modified
-    mo = ctx.func(FLOW, "Flow.modified")
-    trs, eng = paths(mo, keep=lambda e: e[0] in ("return", "assign", "del") or (e[0] == "call" and e[1].endswith(".pop")))
-    ctx.paths += len(trs)
-    bad = False
-    seen = set()
-    plain_compare = False
-    overrides = None  # what modified() does to the "backup" entry of the state it compares: None | "none" | "absent"
-    for t, how in trs:
-        has = fact([e for e in t if e[0] == "cond"], BK)
-        seen.add(has)
-        ret = [e for e in t if e[0] == "return"]
-        r = ast.parse(ret[-1][1], mode="eval").body if ret else None
-        if has is True:
-            cmp_ = r.operand if isinstance(r, ast.UnaryOp) and isinstance(r.op, ast.Not) else r
-            want_op = ast.Eq if cmp_ is not r else ast.NotEq
-            good = isinstance(cmp_, ast.Compare) and len(cmp_.ops) == 1 and isinstance(cmp_.ops[0], want_op) and BK in (ast.unparse(cmp_.left), ast.unparse(cmp_.comparators[0]))
-            if good:
-                other = cmp_.comparators[0] if ast.unparse(cmp_.left) == BK else cmp_.left
-                ov = None
-                if ast.unparse(other) == "self.get_state()":
-                    pass
-                elif isinstance(other, ast.Name):
-                    src = [e for e in t if e[0] == "assign" and e[1] == other.id]
-                    good = len(src) == 1 and src[0][2] == "self.get_state()"
-                    for e in t:
-                        if e[0] == "assign" and e[1].startswith(other.id + "["):
-                            ctx.require(_q(e[1]) == f"{other.id}['backup']" and e[2] == "None", f"Flow.modified edits the compared state in a way R40.3 does not model: {e[1]} = {e[2]}")
-                            ov = "none"
-                        elif (e[0] == "del" and e[1].startswith(other.id + "[")) or (e[0] == "call" and e[1] == f"{other.id}.pop"):
-                            ctx.require(_q(e[1] if e[0] == "del" else e[2][0]) in (f"{other.id}['backup']", "'backup'"), f"Flow.modified edits the compared state in a way R40.3 does not model: {e}")
-                            ov = "absent"
-                else:
-                    good = False
-                if good:
-                    plain_compare = True
-                    overrides = ov
-        elif has is False:
-            good = isinstance(r, ast.Constant) and r.value is False
-        else:
-            good = False
-        if not good:
-            bad = True
-            ctx.fail("R40.1", (FLOW, "Flow.modified", mo), f"modified: path [{show(t)}]",
-                     "modified must be False without a backup and the inequality of self._backup and the current get_state() with one")
-    ctx.require(bad or seen == {True, False}, "Flow.modified: both cases (backup exists / not) expected")
-    if not bad:
-        ctx.ok("R40.1", "modified: False without backup, backup != current state otherwise")
-
-    # ---- R40.2 Serializable.copy
-    cp = ctx.func(SER, "Serializable.copy")
-    trs, eng = paths(cp, keep=lambda e: e[0] in ("assign", "return") or (e[0] == "call" and e[1] in ("self.from_state", "self.get_state")))
-    ctx.paths += len(trs)
-    bad = False
-    n_id = 0
-    for t, how in trs:
-        svs = [e[1] for e in t if e[0] == "assign" and e[2] == "self.get_state()"]
-        fs = [i for i, e in enumerate(t) if e[0] == "call" and e[1] == "self.from_state"]
-        ctx.require(len(svs) == 1 and len(fs) == 1 and how == "return", f"Serializable.copy: path shape not modelled [{show(t)}]")
-        sv = svs[0]
-        has_id = [e[2] for e in t if e[0] == "cond" and _q(e[1]) == f"'id' in {sv}"]
-        is_dict = [e[2] for e in t if e[0] == "cond" and e[1] == f"isinstance({sv}, dict)"]
-        ids = [i for i, e in enumerate(t) if e[0] == "assign" and _q(e[1]) == f"{sv}['id']"]
-        must = (not has_id or has_id[-1]) and (not is_dict or is_dict[-1])
-        if has_id and has_id[-1]:
-            n_id += 1
-        if must:
-            ok_ = ids and ids[-1] < fs[0] and "uuid4()" in t[ids[-1]][2] and t[fs[0]][2] == (sv,)
-            if not ok_:
-                bad = True
-                ctx.fail("R40.2", (SER, "Serializable.copy", cp), f"copy: path [{show(t)}]", "a copy of a state that carries an id must get a fresh uuid4 before from_state consumes the state")
-    ctx.require(bad or n_id >= 1, "Serializable.copy: no path decides 'id' in state")
-    if not bad:
-        ctx.ok("R40.2", "Serializable.copy: state['id'] := uuid4 before from_state(state)")
-
-    # ---- R40.2 Flow.copy not live
-    fc = ctx.func(FLOW, "Flow.copy")
-    trs, eng = paths(fc, keep=lambda e: e[0] in ("assign", "return"))
-    ctx.paths += len(trs)
-    bad = False
-    for t, how in trs:
-        ret = [e for e in t if e[0] == "return"]
-        rv_ = ret[-1][1] if ret else None
-        src = [e for e in t if e[0] == "assign" and e[1] == rv_ and e[2] == "super().copy()"]
-        live = [e for e in t if e[0] == "assign" and e[1] == f"{rv_}.live"]
-        if not (how == "return" and src and live and live[-1][2] == "False"):
-            bad = True
-            ctx.fail("R40.2", (FLOW, "Flow.copy", fc), f"Flow.copy: path [{show(t)}]", "a copied flow must come from Serializable.copy and be marked not live")
-    if not bad:
-        ctx.ok("R40.2", "Flow.copy: super().copy() with live = False")
-
-    # ---- R40.2 get_state deep-copies mutable members
-    gs = ctx.func(FLOW, "Flow.get_state")
-    leaks = []
-    n_deep = 0
-    for member in ("self.metadata", BK):
-        uses = [n for n in ast.walk(gs) if attr_chain(n) == member and isinstance(n, ast.Attribute) and isinstance(n.ctx, ast.Load)]
-        ctx.require(uses, f"Flow.get_state no longer reads {member}")
-        for u in uses:
-            par = u._parent
-            if isinstance(par, ast.Call) and last_attr(par.func) == "deepcopy" and u in par.args:
-                n_deep += 1
-            elif isinstance(par, (ast.Compare, ast.BoolOp, ast.UnaryOp, ast.If, ast.IfExp)) and (not isinstance(par, ast.IfExp) or par.test is u):
-                pass  # only tested, not stored
-            else:
-                leaks.append(f"{member} in {ast.unparse(par)[:60]}")
-    ctx.check(not leaks and n_deep >= 2, "R40.2", (FLOW, "Flow.get_state", gs), f"get_state stores live mutable members: {leaks}",
-              "the state shares a mutable object with the flow: editing the flow changes its backup / its copy (or from_state consumes the original's backup)",
-              desc="get_state deep-copies metadata and the backup")
-
-    # ---- R40.3 (per concrete flow class: the subclass adds keys to the state AFTER Flow.get_state has evaluated its own
-    # `self._backup != state` test, so inside Flow.get_state a stored backup never equals the partial state)
-    if plain_compare:
-        subs = []
-        for sub in ("mitmproxy/http.py::HTTPFlow", "mitmproxy/tcp.py::TCPFlow", "mitmproxy/udp.py::UDPFlow", "mitmproxy/dns.py::DNSFlow"):
-            rel, cl = sub.split("::")
-            ctx.require("Flow" in m.base_names(rel, cl), f"{cl} is no longer a Flow")
-            g2 = m.module(rel).get(f"{cl}.get_state")
-            ctx.require(g2 is not None and "_backup" not in ast.unparse(g2), f"{cl}.get_state missing or touching _backup: R40.3 does not model it")
-            ctx.functions.add(f"{rel}::{cl}.get_state")
-            rets = [n for n in ast.walk(g2) if isinstance(n, ast.Return)]
-            okr = len(rets) == 1 and isinstance(rets[0].value, ast.Dict) and rets[0].value.keys and rets[0].value.keys[0] is None \
-                and ast.unparse(rets[0].value.values[0]) == "super().get_state()" and all(isinstance(k, ast.Constant) for k in rets[0].value.keys[1:])
-            ctx.require(okr, f"{cl}.get_state is not '{{**super().get_state(), <literal keys>}}': R40.3 does not model it")
-            extra = frozenset(k.value for k in rets[0].value.keys[1:])
-            ctx.require("backup" not in extra, f"{cl}.get_state overrides the backup entry: R40.3 does not model it")
-            subs.append((cl, extra))
+    for q in ("Flow.backup", "Flow.revert", "Flow.modified", "Flow.copy", "Flow.get_state", "Flow.set_state"):
+        ctx.func(FLOW, q)
+    ctx.func(SER, "Serializable.copy")
+    for rel, cl in FLOW_CLASSES[1:]:
+        ctx.require("Flow" in m.base_names(rel, cl), f"{cl} is no longer a Flow")
+    if ctx.tier == "thorough":
         # (helpers shipped under mitmproxy/test/ are not product flow types)
-        known = {c.name for mod_, c in m.subclasses("Flow") if not mod_.rel.startswith("mitmproxy/test/")} if ctx.tier == "thorough" else {c for c, _ in subs}
-        ctx.require(known == {c for c, _ in subs}, f"Flow subclasses changed: {sorted(known)} - extend R40.3")
-        for cl, extra in subs:
-            try:
-                base1 = _eval_get_state(gs, None)
-                snap = (base1[0] | extra, base1[1])  # what backup() stores for this class
-                base2 = _eval_get_state(gs, snap)  # Flow.get_state evaluated with _backup = snap (the partial state lacks `extra`)
-                now = (base2[0] | extra, base2[1])
-                if overrides == "none":  # modified() neutralises the entry of the freshly computed state before comparing
-                    now = (now[0] | {"backup"}, "none")
-                elif overrides == "absent":
-                    now = (now[0] - {"backup"}, "absent")
-            except _Unmodelled as e:
-                ctx.require(False, f"Flow.get_state: shape not modelled by R40.3: {e}")
-            ctx.cells += 2
-            same = snap == now
-            what = (f"'backup' entry is {snap[1]} in the snapshot stored by backup() but {now[1]} in the state modified() compares" if snap[0] == now[0]
-                    else f"key sets differ by {sorted(snap[0] ^ now[0])} between the snapshot stored by backup() and the state modified() compares")
-            ctx.check(same, "R40.3", (FLOW, "Flow.modified", mo), f"{cl}: {what}",
-                      "for an unedited flow the stored backup and the state it is compared with differ in the nested backup entry, so modified() is True as soon as a backup exists",
-                      desc=f"{cl}: unedited flow => backup == compared state (backup entry {snap[1]} on both sides)", snapshot=[sorted(snap[0]), snap[1]], current=[sorted(now[0]), now[1]])
-    else:
-        ctx.require(any(f.rule == "R40.1" for f in ctx.findings), "Flow.modified does not compare _backup with a get_state() result: R40.3 does not model this shape")
-
-    # ---- R40.4 set_state overwrites everything get_state reads
-    ctx.guard(_set_state_total, ctx)
-
-    expect(ctx, "R40.1", 3)
-    expect(ctx, "R40.2", 3)
-    expect(ctx, "R40.4", 5)
-    if plain_compare:
-        expect(ctx, "R40.3", 4)
+        known = {c.name for mod_, c in m.subclasses("Flow") if not mod_.rel.startswith("mitmproxy/test/")}
+        ctx.require(known == {c for _, c in FLOW_CLASSES[1:]}, f"Flow subclasses changed: {sorted(known)} - extend C40's FLOW_CLASSES")
+    base_attrs: set = set()  # state attributes of Flow itself (filled by the first run)
+    for rel, cl in FLOW_CLASSES:
+        ctx.guard(_one_class, ctx, rel, cl, base_attrs)
+    ctx.trust("copy.deepcopy (handed to the interpreter as trusted module); uuid / time / logging replaced by stand-ins")
+    ctx.assume("Flow.from_state(state) = new instance of the flow class + set_state(state) (registry lookup is C36's subject)")
+    ctx.assume("sub-objects' get_state() returns a fresh state, their set_state / from_state consume the given state")
+    ctx.bounds.append("C40: every attribute ranges over None (if optional) / a falsy value / two truthy values, one attribute edited at a time (+ all at once), two backup-revert cycles; "
+                      "quick tier: all ordered value pairs for Flow's attributes on Flow and for each subclass's own attributes, one successor pair for inherited attributes on subclasses")
+    for r in ("R40.1", "R40.2", "R40.3", "R40.4"):
+        expect(ctx, r, len(FLOW_CLASSES))
 
 
 MUTANTS = [
@@ -586,6 +722,9 @@ MUTANTS = [
            "        if r := state.pop(\"response\"):\n            self.response = DNSMessage.from_state(r)\n", "R40.4"),
     Mutant("set-state-keeps-later-error", FLOW, "        else:\n            self.error = state.pop(\"error\")\n", "        else:\n            state.pop(\"error\")\n", "R40.4"),
     Mutant("set-state-drops-comment", FLOW, "        self.comment = state.pop(\"comment\")\n", "        state.pop(\"comment\")\n", "R40.4"),
+    Mutant("set-state-keeps-marker-when-unmarked", FLOW, "        self.marked = state.pop(\"marked\")\n", "        self.marked = state.pop(\"marked\") or self.marked\n", "R40.4"),
+    Mutant("tcp-set-state-appends-messages", "mitmproxy/tcp.py", "        self.messages = [TCPMessage.from_state(m) for m in state.pop(\"messages\")]\n",
+           "        self.messages.extend(TCPMessage.from_state(m) for m in state.pop(\"messages\"))\n", "R40.4"),
     Mutant("backup-overwrites", FLOW, "        if not self._backup:\n            self._backup = self.get_state()\n", "        self._backup = self.get_state()\n", "R40.1"),
     Mutant("backup-guard-inverted", FLOW, "        if not self._backup:\n            self._backup = self.get_state()\n", "        if self._backup:\n            self._backup = self.get_state()\n", "R40.1"),
     Mutant("revert-clears-first", FLOW, "            self.set_state(self._backup)\n            self._backup = None\n", "            self._backup = None\n            self.set_state(self._backup)\n", "R40.1"),
@@ -594,11 +733,18 @@ MUTANTS = [
     Mutant("modified-true-without-backup", FLOW, "            return self._backup != state\n        else:\n            return False\n", "            return self._backup != state\n        else:\n            return True\n", "R40.1"),
     Mutant("modified-compares-stale-state", FLOW, "            state = self.get_state()\n            state[\"backup\"] = None\n            return self._backup != state\n",
            "            state = self._backup\n            return self._backup != state\n", "R40.1"),
+    Mutant("modified-ignores-comment", FLOW, "            state[\"backup\"] = None\n            return self._backup != state\n",
+           "            state[\"backup\"] = None\n            state[\"comment\"] = self._backup[\"comment\"]\n            return self._backup != state\n", "R40.1"),
     Mutant("copy-keeps-id", SER, "        if isinstance(state, dict) and \"id\" in state:\n            state[\"id\"] = str(uuid.uuid4())\n", "", "R40.2"),
     Mutant("copy-fresh-id-too-late", SER, "        if isinstance(state, dict) and \"id\" in state:\n            state[\"id\"] = str(uuid.uuid4())\n        return self.from_state(state)\n",
            "        c = self.from_state(state)\n        if isinstance(state, dict) and \"id\" in state:\n            state[\"id\"] = str(uuid.uuid4())\n        return c\n", "R40.2"),
-    Mutant("copy-stays-live", FLOW, "        f = super().copy()\n        f.live = False\n        return f\n", "        f = super().copy()\n        return f\n", "R40.2"),
+    # (dropping `f.live = False` altogether is NOT a defect: from_state builds the copy with the constructor's default live=False)
+    Mutant("copy-inherits-live", FLOW, "        f = super().copy()\n        f.live = False\n        return f\n", "        f = super().copy()\n        f.live = self.live\n        return f\n", "R40.2"),
+    Mutant("copy-shares-metadata", FLOW, "        f = super().copy()\n        f.live = False\n        return f\n", "        f = super().copy()\n        f.live = False\n        f.metadata = self.metadata\n        return f\n", "R40.2"),
+    Mutant("copy-drops-comment", FLOW, "        f = super().copy()\n        f.live = False\n        return f\n", "        f = super().copy()\n        f.live = False\n        f.comment = \"\"\n        return f\n", "R40.2"),
     Mutant("metadata-shared", FLOW, "\"metadata\": copy.deepcopy(self.metadata),", "\"metadata\": self.metadata,", "R40.2"),
+    # seed C40a
+    Mutant("metadata-shallow-copy", FLOW, "\"metadata\": copy.deepcopy(self.metadata),", "\"metadata\": self.metadata.copy(),", "R40.2"),
     Mutant("backup-shared", FLOW, "state[\"backup\"] = copy.deepcopy(self._backup) if self._backup != state else None", "state[\"backup\"] = self._backup if self._backup != state else None", "R40.2"),
     Mutant("revert-fix-modified-compares-own-backup-entry", FLOW, "            state = self.get_state()\n            state[\"backup\"] = None\n            return self._backup != state\n",
            "            state = self.get_state()\n            return self._backup != state\n", "R40.3"),
